@@ -47,8 +47,7 @@ const WEIRD: [&str; 8] = [
 
 /// what a failure is keyed by in the known-findings file: the panic site, or the shape of the error message
 fn construct_of(msg: &str) -> String {
-    let m = msg.split(" @ ").collect::<Vec<_>>();
-    if m.len() == 2 { return format!("{} @ {}", m[0].chars().take(60).collect::<String>(), m[1].split(':').next().unwrap_or("")); }
+    if msg.split(" @ ").count() == 3 { return panic_site(msg); }
     // identifiers and numbers of the message are dropped
     let re = regex::Regex::new(r#"[`"'][^`"']*[`"']|\d+"#).unwrap();
     re.replace_all(msg, "_").chars().take(70).collect::<String>().trim().to_string()
